@@ -257,8 +257,8 @@ def replay(case, ctx):
 
 
 def plan(tier, seed):
-    n, per = (12, 330) if tier == "quick" else (16, 20000)
-    nc, perc = (4, 10) if tier == "quick" else (16, 80)
+    n, per = (12, 1500) if tier == "quick" else (16, 20000)
+    nc, perc = (4, 40) if tier == "quick" else (16, 80)
     return [{"kind": "direct", "n": per} for _ in range(n)] + [{"kind": "cli", "n": perc} for _ in range(nc)]
 
 
